@@ -110,6 +110,9 @@ type c07Run struct {
 	impl     []string // observations only the Go side can judge (hangs)
 	sent     []c07Ack
 	stale    map[[2]int]bool // (ack kind, id) of waiter entries left behind by callers that gave up
+	zero     bool            // zero-delay peer: every request packet is answered inside Transport.Write
+	zeroPre  bool            // ... preceded by an acknowledgement of the same kind with an unused identifier
+	zrng     *rand.Rand
 }
 
 func c07Varint(b []byte) (int, int) {
@@ -196,9 +199,65 @@ func (r *c07Run) onPkt(pkt []byte) {
 		c.phase = 1
 	}
 	r.mu.Unlock()
+	if r.zero && c != nil {
+		r.answerNow(c, typ)
+	}
 	select {
 	case r.notes <- c07Note{typ, h}:
 	default:
+	}
+}
+
+// answerNow: the zero-delay broker. Called on the writer's goroutine inside Transport.Write: the
+// acknowledgement of the packet just written is queued and the call returns only when the
+// client's reader has consumed it (and is blocked in Read again) — i.e. the acknowledgement is
+// dispatched BEFORE the library's write returns to the caller.
+func (r *c07Run) answerNow(c *c07Caller, typ string) {
+	var a c07Ack
+	switch {
+	case typ == "start":
+		a = c07Ack{kind: c.awaited(), id: c.id}
+		if a.kind == 3 {
+			a.codes = c07Codes(r.zrng, len(c.filters))
+		}
+	case typ == "resume":
+		a = c07Ack{kind: 2, id: c.id}
+	default:
+		return
+	}
+	var seq []c07Ack
+	if r.zeroPre {
+		f := c07Ack{kind: a.kind, id: c.id + 1000}
+		if f.id == 0 {
+			f.id = 7
+		}
+		if f.kind == 3 {
+			f.codes = c07Codes(r.zrng, r.zrng.Intn(4))
+		}
+		seq = append(seq, f)
+	}
+	seq = append(seq, a)
+	for i, x := range seq {
+		why := "zero-delay"
+		if i < len(seq)-1 {
+			why = "zero-delay-foreign"
+		}
+		r.mu.Lock()
+		r.events = append(r.events, c07Event{typ: "recv", ack: x, why: why})
+		r.mu.Unlock()
+		r.s.conn.send(x.bytes())
+		if !r.s.conn.waitReaderIdle(c07Wait) {
+			r.mu.Lock()
+			r.impl = append(r.impl, fmt.Sprintf("stuck: the reader did not consume %s(%d) within 5 s", c07AckNames[x.kind], x.id))
+			r.mu.Unlock()
+		}
+	}
+	// mirror
+	switch {
+	case typ == "start" && c.kind == c07Pub2:
+		c.phase = 3 // the PUBREL that follows is answered in the same way
+	default:
+		c.phase = 4
 	}
 }
 
@@ -904,6 +963,78 @@ func (r *c07Run) finish(res *c07Result, closing bool) *c07Result {
 	return res
 }
 
+// c07ZeroScript: zero-delay answers. Optionally one bystander whose acknowledgement is withheld,
+// then 1-3 callers started one after another; the peer answers every packet they write (request,
+// PUBREL) inside Transport.Write with its own acknowledgement and returns from Write only when
+// the reader has consumed it. Every such caller must return success (the waiter is registered
+// before the write); one that has not returned after 5 s is recorded as blocked = stuck.
+func c07ZeroScript(rng *rand.Rand) (*c07Result, error) {
+	r := &c07Run{byFilter: map[string]*c07Caller{}, notes: make(chan c07Note, 256), marker: make(chan int, 16),
+		stale: map[[2]int]bool{}, zrng: rng}
+	s, err := newSession(false, func(_ *session, pkt []byte) { r.onPkt(pkt) })
+	if err != nil {
+		return nil, err
+	}
+	r.s = s
+	n := 1 + rng.Intn(3)
+	by := 0
+	if rng.Intn(3) == 0 {
+		by = 1
+	}
+	for i := 0; i < by+n; i++ {
+		c := &c07Caller{idx: i}
+		c.kind = rng.Intn(4)
+		switch c.kind {
+		case c07Pub1, c07Pub2:
+			c.id = uint16(1 + rng.Intn(60000))
+			for r.idInUse(c.kind, c.id) || c07HasID(r.callers, c.kind, c.id) {
+				c.id++
+			}
+		case c07Sub:
+			nf := 1 + rng.Intn(4)
+			for j := 0; j < nf; j++ {
+				c.filters = append(c.filters, fmt.Sprintf("s%d%c", i, 'a'+j))
+				c.reqQoS = append(c.reqQoS, byte(rng.Intn(3)))
+			}
+		default:
+			c.filters = []string{fmt.Sprintf("u%d", i)}
+		}
+		if len(c.filters) > 0 {
+			r.byFilter[c.filters[0]] = c
+		}
+		r.callers = append(r.callers, c)
+	}
+	res := &c07Result{nCallers: by + n, kinds: map[string]int{}}
+	for i, c := range r.callers {
+		r.zero = i >= by
+		r.zeroPre = r.zero && rng.Intn(3) == 0
+		r.launch(c)
+		if !r.zero {
+			if !r.waitNote("start", -1) {
+				r.impl = append(r.impl, "stuck: a request was not written within 5 s")
+				break
+			}
+			continue
+		}
+		if !c07WaitAll([]*c07Caller{c}) {
+			res.stuck = true
+			break // the caller may still hold the write lock or not: do not start anybody else
+		}
+	}
+	r.zero = false
+	res.kinds["zero-delay"] = n
+	return r.finish(res, false), nil
+}
+
+func c07HasID(cs []*c07Caller, kind int, id uint16) bool {
+	for _, c := range cs {
+		if c.kind == kind && c.id == id {
+			return true
+		}
+	}
+	return false
+}
+
 // c07SharedScript: outside C07's hypothesis. Two publishes of the same QoS with the same
 // caller-chosen identifier, the second started after the first has been written, plus a
 // bystander; then the acknowledgement chain for that identifier, twice. The model says the
@@ -988,10 +1119,10 @@ func runC07(cfg *runCfg) error {
 	rng := rand.New(rand.NewSource(cfg.seed))
 	cf := newCasesFile("C07", "Routing", "CheckC07")
 	m := &meta{Property: "C07", Distribution: map[string]interface{}{}, Families: map[string][]interface{}{}}
-	nScripts := 1000
+	nScripts := 800
 	switch cfg.tier {
 	case "thorough":
-		nScripts = 40000
+		nScripts = 30000
 	case "search":
 		nScripts = 2000
 	}
@@ -1072,11 +1203,33 @@ func runC07(cfg *runCfg) error {
 		chunkNames = append(chunkNames, name)
 	}
 	cf.def("scripts", "list c07_case", strings.Join(chunkNames, " ++ "))
+	nZero := 90
+	if cfg.tier != "quick" {
+		nZero = 900
+	}
+	var zero []string
+	for i := 0; i < nZero && stuckScripts < 3; i++ {
+		res, err := c07ZeroScript(rng)
+		if err != nil {
+			return err
+		}
+		zero = append(zero, res.coq)
+		m.Families["zero"] = append(m.Families["zero"], res.desc)
+		for _, v := range res.impl {
+			m.ImplViolations = append(m.ImplViolations, map[string]interface{}{"zero_delay_script": i, "observation": v, "case": res.desc})
+		}
+		if res.stuck || len(res.impl) > 0 {
+			stuckScripts++
+		}
+	}
+	cf.def("zero", "list c07_case", cList(zero))
 	cf.def("shared", "list c07_case", cList(shared))
 	cf.result("V_scripts", "c07_violations scripts")
 	cf.result("M_scripts", "c07_mismatches scripts")
+	cf.result("V_zero", "c07_violations zero")
+	cf.result("M_zero", "c07_mismatches zero")
 	cf.result("M_shared", "c07_shared_mismatches shared")
-	m.Evaluations = len(cases) + len(shared)
+	m.Evaluations = len(cases) + len(shared) + len(zero)
 	m.DistinctNontrivial = nontrivial
 	m.Rule = "one evaluation = one script on a real BaseClient: 1-8 concurrent blocking calls (Publish QoS1/QoS2, Subscribe 1-4 filters, Unsubscribe; publish identifiers often equal to identifiers other kinds of requests hold), possibly started in two waves, answered by a generated acknowledgement sequence (genuine in random order, wrong kind with an identifier in use, unused identifier, duplicate, unsolicited, SUBACK with wrong code count / 0x80), each acknowledgement confirmed as processed by a QoS0 marker; non-trivial = distinct history with >=2 callers, >=1 hostile acknowledgement and >=1 completed call"
 	keys := make([]string, 0, len(kinds))
@@ -1096,6 +1249,7 @@ func runC07(cfg *runCfg) error {
 	m.Distribution["calls_that_gave_up_ctx_cancel_or_deadline"] = gaveUp
 	m.Distribution["late_acknowledgements_for_calls_that_gave_up"] = lateAcks
 	m.Distribution["shared_identifier_scripts_outside_hypothesis"] = len(shared)
+	m.Distribution["zero_delay_scripts"] = len(zero)
 	if err := cf.write(cfg.outDir); err != nil {
 		return err
 	}
